@@ -238,7 +238,27 @@ def _counter_transition(ctx, rep, judged: list) -> None:
     fi = repo.func(f"{PL_MOD}:BaseShampooPreconditionerList._raise_exception_if_failure_tolerance_exceeded")
     rep.floor("C13.3", "call sites of the tolerance routine", len(judged), 2)
     trackers = [[True], [True, True], [False], [True, False], [False, False], []]
+    class Foreign:
+        """A value the simulation knows nothing about (a name that is neither the list's state nor the call's inputs): any
+        comparison with it raises, so a tolerance taken from anywhere but the list's own config shows up as a disagreement."""
+
+        def __init__(self, name: str) -> None:
+            self._n = name
+
+        def __getattr__(self, a: str):
+            return Foreign(f"{self._n}.{a}")
+
+        def __repr__(self) -> str:
+            return f"<{self._n}>"
+
     for caller, call, tracker_var, idx_var in judged:
+        # the call's arguments with the caller's pure locals spelled out (a hoisted `tolerance = self._config.x` is that path)
+        import copy as _copy
+
+        call = _copy.deepcopy(call)
+        call.args = [ast.parse(A.expanded(caller.node, a), mode="eval").body for a in call.args]
+        for k in call.keywords:
+            k.value = ast.parse(A.expanded(caller.node, k.value), mode="eval").body
         body = composed_call(fi.node, True, call, caller.node)
         if body is None:
             raise AnalysisError(f"C13.3: cannot compose {short(caller.qual)} with the tolerance routine")
@@ -264,7 +284,7 @@ def _counter_transition(ctx, rep, judged: list) -> None:
                 elif a == "_preconditioner_config":
                     setattr(selfobj, a, SimpleNamespace(num_tolerated_failed_amortized_computations=tol))
             env = {"self": selfobj, tracker_var: list(tracker), idx_var: idx}
-            it = Interp(env)
+            it = Interp(env, resolve_name=lambda nm: Foreign(nm))
             raised = None
             try:
                 it.run([s for s in body if not (isinstance(s, ast.Expr) and isinstance(s.value, ast.Constant))], lambda e: ast.unparse(e))
@@ -289,7 +309,7 @@ def _counter_transition(ctx, rep, judged: list) -> None:
             "C13.3",
             f"counter-transition:{short(caller.qual)}",
             not bad,
-            caller.loc(call),
+            caller.loc(),
             f"{n} (outcomes, count, tolerance, block) cases through the call in {short(caller.qual)}: success => counter 0, failure => +1 and raise the passed exception iff new count > tolerance, only the block's own (local) counter changes"
             + (f"; first disagreement: tracker={bad[0][0]}, count={bad[0][1]}, tolerance={bad[0][2]}, masked index={bad[0][3]} -> raised={bad[0][4]}, counters={bad[0][5]}" if bad else ""),
             sample=True,
